@@ -39,7 +39,7 @@ KeyOps1   == {"get", "get_entry", "touch", "peek", "peek_entry", "contains",
               "remove", "remove_entry"}
 NullOps   == {"get_lru", "peek_lru", "peek_mru", "remove_lru", "remove_mru", "clear",
               "shrink_to_fit", "len", "is_empty", "current_size", "max_size",
-              "capacity", "debug"}
+              "capacity", "debug", "hasher"}
 
 OpArgs(s) ==
     {OpRec(op, k, kh, vs, 0, {}, <<>>, FALSE) :
